@@ -270,7 +270,11 @@ def add_valid_defaults(rng, schema, depth=0):
                                                 if re.search(pattern, name)]}
                 cand = gv.satisfy(rng, applicable, applicable)
                 try:
-                    if refmodel.valid(applicable, cand, applicable, refmodel.Dev(waiver=True, curated=gv.CURATED)):
+                    # (valid under every reading of a disputed multipleOf: "defaults restricted to ones valid
+                    # for their schema" leaves no room for a default whose validity is a matter of opinion)
+                    if all(refmodel.valid(applicable, cand, applicable,
+                                          refmodel.Dev(waiver=True, curated=gv.CURATED, mult_disputed=flag))
+                           for flag in (True, False)):
                         sub["default"] = cand
                 except Exception:  # pylint: disable=broad-except
                     pass
